@@ -102,6 +102,24 @@ UNITS = {
         'template': 'min_callsite.vrs', 'backend': 'verus',
         'serves': ['C16'],
     },
+    'reader_glue': {
+        'template': 'reader_glue.vrs', 'backend': 'verus',
+        'serves': ['C06', 'C05'],
+        'fn_props': {
+            r'^Sequences::next$': ['C06', 'C05'],
+            r'^verif_lift_gz_decoder$': ['C06'],
+        },
+    },
+    'seqformat_kani': {
+        'backend': 'kani', 'crate': 'seqformat_h', 'serves': ['C06'], 'needs_lock': False,
+        'generate': 'gen_seqformat',
+        'harnesses': [
+            {'name': 'seqformat_len_0_4', 'complete': False, 'thorough_only': True, 'timeout': 1500,
+             'bound': 'all ASCII paths of exactly 0, 3 or 4 bytes (unwind 12)',
+             'claim': 'SeqFormat::get returns Fastq/Fasta/None exactly by the .fq/.fastq/.fa/.fasta/.fna suffix after stripping .gz'},
+        ],
+        'trusted': ['SeqFormat::get is checked by Kani on its verbatim extracted text (enum + inherent impl), BOUNDED: see bounded_standins'],
+    },
     'n2k': {
         'template': 'n2k.vrs', 'backend': 'verus',
         'serves': ['C02', 'C03'],
@@ -214,6 +232,24 @@ PROPS = {
         'level_note': 'trusted: as in C05/C08/C09/C18 (stubs for the record iterator, the row renderer/writer, imported precondition of MinimiserGenerator::new). Process-level behaviour (exit status, hangs, '
                       'stderr, clap) is outside any function contract: not decided. KmerGenerator and the row functions are total on every byte string by their own contracts (C01/C04/C08).',
         'not_reached': ['exit status / abort / hang of the process', 'counter subcommand degenerate inputs (C07 unit, if listed)', 'mmap of a zero-length output (memmap2 behaviour)'],
+    },
+    'C06': {
+        'units': ['reader_glue'], 'thorough_units': ['seqformat_kani'], 'deps': [], 'replay': 'c06',
+        'level_text': 'Narrow claim. Verus proves for the verbatim Sequences::next (both arms) against a stub of the bio parser: each delivered record is the next record of the parser, '
+                      'numbered with the count of records delivered before it (0,1,2,... without gaps), id and bases copied unchanged, None exactly when the parser is exhausted and the counter untouched; '
+                      'and for the lifted decoder-construction statement of get_reader against a stub of flate2 (contracts from its documentation): the decoder used for .gz input decodes ALL members.',
+        'level_note': 'assumed, not verified: bio::io::{fasta,fastq} record boundaries, ids (first word), CRLF / wrapping / final newline handling, FASTQ; flate2 decoder semantics (stub contracts, exercised against the real flate2 '
+                      'by the witness search); seq_stats and iteration use the same parser (equal by determinism). SeqFormat::get: Kani on the verbatim extracted text, BOUNDED (thorough tier only, paths of 0/3/4 ASCII bytes), never counted as proved.',
+        'not_reached': ['record parsing inside bio (ids, CRLF, wrapping, FASTQ)', 'suffix inference beyond the bounded Kani stand-in', 'summary statistics loop (bio records() again)'],
+    },
+    'C05': {
+        'units': ['mmap_rows', 'batch_loops', 'reader_glue'], 'deps': [], 'replay': 'c05',
+        'level_text': 'Narrow claim: the sequential obligations that make row i belong to record i are proved; schedule independence then rests on assumed contracts of Mutex, rayon::scope and par_iter/collect. '
+                      '(1) Sequences::next hands out ordinal n == number of records delivered before (it takes &mut self, so calls are totally ordered); (2) mmap path: the write offset and length of a row are '
+                      'exactly slot record.n of the exact tiling header + records x row length - a function of the record alone, so the file does not depend on write order; (3) batch path: the lifted loop renders every record exactly once in reader order including the final flush.',
+        'level_note': 'assumed, not verified: std::sync::Mutex mutual exclusion, rayon::scope joins all tasks, par_iter().map().collect() preserves order, BufWriter/mmap flush; worker interleavings are NOT enumerated '
+                      '(Kani has no threads; no Verus model of std Mutex/rayon). FASTA/FASTQ/gzip equivalence is parser behaviour (C06). Header = exactly one first line: the lifted layout fragment (header slot) and the header-write statement.',
+        'not_reached': ['worker interleavings (assumed primitives)', 'container equivalence (bio/flate2)', 'closure glue between the lifted fragments'],
     },
 }
 
